@@ -103,6 +103,20 @@ func init() {
 		}
 		return Tuple{in.mkByteSlice(bs), Iface{}}
 	})
+	// VictoriaMetrics/fastcache (code cache of the account database): always misses
+	fc := "github.com/VictoriaMetrics/fastcache"
+	reg(fc+".New", func(in *Interp, fr *frame, a []Value, _ *ssa.CallCommon) Value {
+		p, _ := in.newNamedStruct(fc, "Cache")
+		return p
+	})
+	reg("(*"+fc+".Cache).Get", func(in *Interp, fr *frame, a []Value, _ *ssa.CallCommon) Value { return a[1] })
+	reg("(*"+fc+".Cache).HasGet", func(in *Interp, fr *frame, a []Value, _ *ssa.CallCommon) Value {
+		return Tuple{a[1], in.tt.False}
+	})
+	reg("(*"+fc+".Cache).Has", func(in *Interp, fr *frame, a []Value, _ *ssa.CallCommon) Value { return in.tt.False })
+	reg("(*"+fc+".Cache).Set", zeroRes)
+	reg("(*"+fc+".Cache).Del", zeroRes)
+	reg("(*"+fc+".Cache).Reset", zeroRes)
 	lg := func(in *Interp, fr *frame, a []Value, _ *ssa.CallCommon) Value { return mkStubIface("logger") }
 	reg(repoMod+"middleware/log.GetLogger", lg)
 	reg(repoMod+"middleware/log.GetLoggerByIndex", lg)
